@@ -114,8 +114,10 @@ impl<'t, 'd> G<'t, 'd> {
     fn newline_indent(&mut self) {
         self.p("\n");
         let n = self.t.below(7);
+        // rarely tabs (code only; in markup the generator tracks columns in spaces)
+        let tab = self.cont > 0 && self.t.chance(12);
         for _ in 0..n {
-            self.p(" ");
+            self.p(if tab { "\t" } else { " " });
         }
     }
 
@@ -1079,10 +1081,27 @@ impl<'t, 'd> G<'t, 'd> {
             9 => {
                 // embedded code
                 self.p("#");
-                match self.t.weighted(&[4, 3, 2, 2]) {
+                match self.t.weighted(&[4, 3, 2, 2, 3]) {
                     0 => {
                         let i = self.ident();
                         self.p(i)
+                    }
+                    4 => {
+                        // method chain written tightly (in math a line break would end the code)
+                        let i = self.ident();
+                        self.p(i);
+                        let n = 1 + self.t.weighted(&[2, 4, 3, 1]);
+                        for _ in 0..n {
+                            self.p(".");
+                            let m = self.t.pick(&["map", "filter", "at", "len", "join", "first", "rev", "pos", "x", "fold"]);
+                            self.p(m);
+                            if self.t.chance(190) {
+                                let c = self.cont;
+                                self.cont = 1;
+                                self.args_paren_only(d + 2);
+                                self.cont = c;
+                            }
+                        }
                     }
                     1 => {
                         let f = self.t.pick(FUNCS);
@@ -1156,10 +1175,39 @@ impl<'t, 'd> G<'t, 'd> {
     }
 
     fn math_small(&mut self, d: u32) {
-        match self.t.weighted(&[6, 3, 3]) {
+        match self.t.weighted(&[6, 3, 3, 3]) {
             0 => {
                 let s = self.t.pick(&["x", "n", "1", "alpha", "i"]);
                 self.p(s)
+            }
+            3 => {
+                // embedded code as operand of an attachment / fraction / root, often ended by `;`
+                self.p("#");
+                match self.t.weighted(&[5, 3, 2]) {
+                    0 => {
+                        let i = self.ident();
+                        self.p(i)
+                    }
+                    1 => {
+                        let f = self.t.pick(FUNCS);
+                        self.p(f);
+                        let c = self.cont;
+                        self.cont = 1;
+                        self.args_paren_only(d + 2);
+                        self.cont = c;
+                    }
+                    _ => {
+                        self.p("(");
+                        let c = self.cont;
+                        self.cont = 1;
+                        self.expr(d + 3);
+                        self.cont = c;
+                        self.p(")")
+                    }
+                }
+                if self.t.chance(140) {
+                    self.p(";")
+                }
             }
             1 => {
                 self.p("(");
